@@ -62,6 +62,9 @@ func c14Run(r *core.Run) {
 	if !o.PreHistory(r) || !o.Build() {
 		return
 	}
+	if t.Int(5, "c14.otherapi") == 1 {
+		OtherAPICalls(r, o.Node.SP, 3)
+	}
 	c14Measure(r, o, builder, relay, signReq, decor)
 	if !r.Failed() && r.Harness == "" && t.Int(3, "c14.again") == 1 {
 		// the same SP produces a second redirect (other relay state): nothing may accumulate
